@@ -66,7 +66,7 @@ def explore():
     if ck.thorough():
         args += ["-same", "40", "-partial", "12", "-race", "4", "-par", "4", "-go117", "12", "-dirruns", "24", "-stress", "6000000", "-racerepo", "./lintcmd/runner,./internal/sync,./analysis/lint,./unused"]
     else:
-        args += ["-same", "5", "-partial", "2", "-race", "1", "-par", "4", "-traced", "0", "-text=false", "-go117", "2", "-dirruns", "8", "-stress", "300000"]
+        args += ["-same", "5", "-partial", "2", "-race", "1", "-par", "6", "-traced", "0", "-text=false", "-go117", "2", "-dirruns", "8", "-stress", "300000"]
     env = dict(GOENV); env["VERIF_REPO"] = REPO
     rc, out = sh(args, timeout=6 * 3600, env=env)
     if rc != 0 or not os.path.exists(res):
